@@ -177,7 +177,8 @@ class SharedDataMiddleware:
 
             try:
                 resource = reader.open_resource(path)
-            except OSError:
+            except (OSError, ValueError):
+                # ValueError: a path with an embedded null byte names no resource
                 return None, None
 
             if isinstance(resource, BytesIO):
